@@ -837,6 +837,7 @@ pub fn run(ctx: &mut Ctx) {
         "column index + values of real columnar files cross-decoded by the model (cardinality, optional index, start offsets, values)".into(),
         "merge row mapping: read(model mergeShuffled / mergeStacked) = real merged column rows".into(),
         "model decode of real compact-space (IP) column bytes = indexed u128 values; footer min/max equal".into(),
+        "Column::get_docids_for_value_range on written u64 columns = model (docid_range_to_rowids + select_batch_in_place)".into(),
         "cardinality of every written column = the model of ColumnWriter (op log, delta_with_last_doc); model writer reads back its rows".into(),
     ];
     if let Some(case) = ctx.replay.clone() {
@@ -846,12 +847,12 @@ pub fn run(ctx: &mut Ctx) {
     check_constants(ctx);
     known_range_below_min(ctx);
     let plan: [(&str, u64, u64); 6] = [
-        ("bitpack", 500, 8_000),
-        ("codec", 230, 4_000),
-        ("optidx", 60, 900),
-        ("columnar", 260, 5_000),
-        ("merge", 220, 4_500),
-        ("tantivy", 14, 200),
+        ("bitpack", 500, 3_200),
+        ("codec", 230, 1_500),
+        ("optidx", 60, 350),
+        ("columnar", 260, 2_000),
+        ("merge", 220, 1_800),
+        ("tantivy", 14, 80),
     ];
     for (kind, q, t) in plan {
         let n = ctx.budget(q, t);
